@@ -37,6 +37,47 @@ func Harness_C03layout(arg int) {
 	symReach("end")
 }
 
+// Harness_C03term: the end of a rule (or of the initializer) written in each documented way, with symbolic layout
+// in front of it: a semicolon after any layout (blanks, tabs, carriage returns, newlines), or an end of line after
+// blanks. The skeleton text ends every rule with two newlines; they are replaced by the terminator under test.
+func Harness_C03term(arg int) {
+	ci, si := arg/c03MaxTerms, arg%c03MaxTerms
+	cs := c03Term[ci]
+	symAssume(si < len(cs.seps))
+	off := cs.seps[si]
+	hole := symBytes("h", c03HoleLen)
+	semi := symBool("semicolon")
+	follow := symBool("newline_after")
+	var ins []byte
+	if semi {
+		for _, b := range hole {
+			symAssume(symInSet(b, " \t\r\n"))
+		}
+		ins = append(append([]byte{}, hole...), ';')
+		if follow {
+			ins = append(ins, '\n')
+		}
+	} else {
+		for _, b := range hole {
+			symAssume(symInSet(b, " \t\r"))
+		}
+		ins = append(append([]byte{}, hole...), '\n')
+		if follow {
+			ins = append(ins, '\n')
+		}
+	}
+	text := append([]byte{}, cs.text[:off]...)
+	text = append(text, ins...)
+	text = append(text, cs.text[off+2:]...)
+	g, err := Parse("", text)
+	symNote(cs.name)
+	symAssert(err == nil, "C03: a documented rule terminator (semicolon after layout, or end of line after blanks) was rejected")
+	if err == nil {
+		symAssert(symEqual(symDumpGrammar(g.(*ast.Grammar), false), cs.want), "C03: the way a rule is terminated changed the AST")
+	}
+	symReach("end")
+}
+
 // Harness_C03comment: a comment with symbolic content between two tokens.
 func Harness_C03comment(arg int) {
 	ci, si := arg/c03MaxSeps, arg%c03MaxSeps
